@@ -76,6 +76,9 @@ def run(ctx):
     rule_close_writes(ctx, r1)
     from .c07 import rule_tracked_dump
     rule_tracked_dump(ctx, r1)
+    # "Whatever point `gwf run` is interrupted at": an interruption from the keyboard reaches the with-blocks as an exception
+    from .shared import rule_signal_dispositions, RUN_ROOTS
+    rule_signal_dispositions(ctx, r1, "C09", roots=RUN_ROOTS)
     from .persist import rule_table_ownership
     rule_table_ownership(ctx, r1)
 
